@@ -483,6 +483,11 @@ func walkSkipPred(m int, e *gpmf.Element) bool {
 	return (s+int(e.Header.Count)+int(e.Header.Type))%m == 0
 }
 
+var (
+	sharedReader = gpmf.NewReader()
+	readerCalls  int
+)
+
 func runReader(b []byte, walkmod int) gpmfObs {
 	var els []*gpmf.Element
 	var err error
@@ -492,7 +497,14 @@ func runReader(b []byte, walkmod int) gpmfObs {
 	go func() {
 		defer close(done)
 		panicked, msg = Guard(func() {
-			els, err = gpmf.NewReader().Read(bytes.NewReader(b))
+			// every other call goes through one long-lived Reader that has read all the
+			// previous inputs (history): a Reader must not carry anything from one Read to the next
+			readerCalls++
+			if readerCalls%2 == 0 {
+				els, err = sharedReader.Read(bytes.NewReader(b))
+			} else {
+				els, err = gpmf.NewReader().Read(bytes.NewReader(b))
+			}
 		})
 	}()
 	select {
